@@ -24,6 +24,12 @@ POP_RE = r"^babylon::ConcurrentBoundedQueue<.*>::(try_)?pop(_n)?$"
 PUSH_RE = r"^babylon::ConcurrentBoundedQueue<.*>::(try_)?push(_n)?$"
 
 
+DEPENDS = {
+    "C01": "retired tasks travel through a ConcurrentBoundedQueue",
+    "C02": "the reclaim thread sleeps in the queue's pop, retire() in its push",
+    "C09": "reclamation is gated by the Epoch's low water mark",
+}
+
 def units(tier):
     return [driver("epoch_gc.cc")]
 
